@@ -39,11 +39,11 @@ Proof. exact undefined_global_rejected. Qed.
 Example C05_undefined_attr_group_materialised :
   is_ok (Skeleton.translate id_oracle (fun l => l) [mk NGlobal nameA KPlain [{| u_ns := NAttr; u_id := INum 7 |}]]) = true.
 Proof. exact undefined_attr_group_accepted. Qed.
-(* known findings: KF-10 an alias to an undefined type is a crash, not an error; KF-24 a type may be
-   defined again after an opaque definition *)
-Example C05_alias_to_undefined_type_refuted :
-  Skeleton.translate id_oracle (fun l => l) [mk NType nameA (KAlias nameB) []] = Skeleton.Panic.
-Proof. exact alias_to_undefined_panics. Qed.
+(* an alias to an undefined type is an error (KF-10, fixed in e8258c9: it used to crash) *)
+Example C05_alias_to_undefined_type_rejected :
+  Skeleton.translate id_oracle (fun l => l) [mk NType nameA (KAlias nameB) []] = Skeleton.Err.
+Proof. exact alias_to_undefined_rejected. Qed.
+(* known finding KF-24: a type may be defined again after an opaque definition *)
 Example C05_typedef_after_opaque_refuted :
   is_ok (Skeleton.translate id_oracle (fun l => l) [mk NType nameA KOpaque []; mk NType nameA KPlain []]) = true.
 Proof. exact typedef_after_opaque_accepted. Qed.
